@@ -1,0 +1,20 @@
+//go:build verif
+
+package core
+
+import (
+	"github.com/youchainhq/go-youchain/youdb"
+)
+
+// VerifC12Chain returns a BlockChain that consists of its header chain over db only: enough for the
+// chain-level version-state entry points (VerifyYouVersionState, VerifyYouVersionState2,
+// VersionForRound), which read nothing but headers. The genesis header must already be in db.
+func VerifC12Chain(db youdb.Database) (*BlockChain, error) {
+	bc := &BlockChain{db: db}
+	hc, err := NewHeaderChain(db, bc, nil, func() bool { return false })
+	if err != nil {
+		return nil, err
+	}
+	bc.hc = hc
+	return bc, nil
+}
